@@ -16,6 +16,7 @@ OBLIGATIONS = [
     "C09/P_expand_sound.v",
     "C09/P_expand_decides.v",
     "C09/P_guarded_refines.v",
+    "C09/P_fuel_mono.v",
     "C09/P_multinomial.v",
     "C09/P_nonvacuous.v",
 ]
@@ -39,6 +40,11 @@ def idem_class(rdump):
         if u and u[0] == "Pow" and isinstance(u[1], list) and u[1] and u[1][0] == "Add" and isinstance(u[2], list) and u[2][0] == "I":
             if int(u[2][1]) <= -2:
                 found.append("neg")
+        if u and u[0] == "Mul":      # a factor (sum)**(-k), k >= 2, of a product
+            for ent in u[2:]:
+                if (isinstance(ent, list) and len(ent) == 2 and isinstance(ent[0], list) and ent[0] and ent[0][0] == "Add"
+                        and isinstance(ent[1], list) and ent[1] and ent[1][0] == "I" and int(ent[1][1]) <= -2):
+                    found.append("neg")
         for k in (u if (u and isinstance(u[0], list)) else u[1:]):
             walk(k, under_add or (u and u[0] == "Add"))
     walk(t, False)
@@ -52,13 +58,13 @@ def run(ctx):
     q = ctx.tier == "quick"
     rng = ctx.rng
     xs = [("1", r) for r in E.XCORPUS] + [("0", r) for r in E.XCORPUS[:40]]
-    xs += [("1", E.gen_poly(rng, rng.randint(2, 4))) for _ in range(500 if q else 8000)]
-    xs += [("1", E.gen_xexpr(rng, rng.randint(2, 4))) for _ in range(700 if q else 12000)]
-    xs += [("1", E.gen_product_of_sums(rng)) for _ in range(300 if q else 5000)]
+    xs += [("1", E.gen_poly(rng, rng.randint(2, 4))) for _ in range(350 if q else 8000)]
+    xs += [("1", E.gen_xexpr(rng, rng.randint(2, 4))) for _ in range(450 if q else 12000)]
+    xs += [("1", E.gen_product_of_sums(rng)) for _ in range(200 if q else 5000)]
     xs += [("1", "(pow %s (i %d))" % (E.gen_sum(rng, rng.randint(2, 5), E.SYMS + ["(i 1)", "(q 1 2)", "(f1 sin x)", "(pow x (i -1))", "(mul x y)", "w"]),
-                                      rng.choice([2, 3, 4, 5, 6, 7, -2, -3]))) for _ in range(200 if q else 3000)]
-    xs += [("0", E.gen_xexpr(rng, 3)) for _ in range(100 if q else 2000)]
-    ds = [E.gen_decides_pair(rng, rng.randint(2, 3)) for _ in range(400 if q else 8000)]
+                                      rng.choice([2, 3, 4, 5, 6, 7, -2, -3]))) for _ in range(150 if q else 3000)]
+    xs += [("0", E.gen_xexpr(rng, 3)) for _ in range(80 if q else 2000)]
+    ds = [E.gen_decides_pair(rng, rng.randint(2, 3)) for _ in range(300 if q else 8000)]
     ms = [(m, n) for m in range(0, 7 if q else 9) for n in range(0, 9 if q else 13)]
     stats = {}
     explore(ctx, drv, model, xs, ds, ms, stats)
